@@ -4,7 +4,7 @@
 From Coq Require Import List ZArith QArith Bool.
 From PV Require Import lib.Sx lib.Str lib.Result model.GenScc model.SccTime model.SccStash model.SccDecoder model.SccLayout.
 From PV Require Import spec.Spec608 spec.SpecScc05.
-From PV Require Import proofs.SccTableFacts proofs.SccTableFixFacts proofs.SccDoubleFacts proofs.SccItalicsFacts proofs.SccPoponStage1 proofs.SccPoponStage2 proofs.SccPoponStage3 proofs.SccPoponStage4.
+From PV Require Import proofs.SccTableFacts proofs.SccTableFixFacts proofs.SccDoubleFacts proofs.SccItalicsFacts proofs.SccPoponStage1 proofs.SccPoponStage2 proofs.SccPoponStage3 proofs.SccPoponStage4 proofs.SccPoponStage6.
 From PV Require Import spec.SpecSccTime proofs.SccPoponFacts.
 Import ListNotations.
 Open Scope Z_scope.
@@ -228,6 +228,22 @@ Theorem C05_popon_stage4_captions_partial : forall d off segs evs caps,
   map pc_layout caps = map (fun r => Some (row_pos r)) (loads_of segs).
 Proof. exact popon_stage4_captions. Qed.
 Print Assumptions C05_popon_stage4_captions_partial.
+
+(* ---- STAGE 6 = popon_refines_608 for WHOLE PROGRAMS of basic characters: any number of loads, each with any number
+        of rows (distinct rows, any order and addresses), each load on its own line, Erase-Displayed-Memory lines
+        anywhere in between, codes single or doubled, any timecodes whose instants are positive and such that every
+        event comes after the latest End-Of-Caption: read returns captions that satisfy the property oracle ok_c05 for the
+        whole program (characters, lines, grouping by consecutive rows, position of each caption, equal times inside a
+        load, order of loads), and the program is inside dom_c05. What remains open for the full theorem: special /
+        extended / backspace / italic preambles in multi-row and multi-load programs (stage 5 + 6 combined), mid-row codes. *)
+Theorem C05_popon_stage6_refines_partial : forall d off segs evs spans,
+  forallb pseg_ok segs = true -> res_map (pseg_event d off) segs = Ok evs -> positive evs -> after_show None evs ->
+  expected_with join_threshold evs = Ok spans ->
+  exists caps, read off (map (pseg_line d) segs) = ROk caps /\
+               ok_c05 (mkProg d (ploads_of segs)) (Ok (map observe caps)) = true /\
+               dom_c05 (mkProg d (ploads_of segs)) = true.
+Proof. exact popon_stage6. Qed.
+Print Assumptions C05_popon_stage6_refines_partial.
 
 (* ---- non-vacuity / behaviour after fix #22: the second caption is addressed on its own ---------------------------- *)
 Example C05_example_two_loads :
